@@ -468,14 +468,14 @@ func (s *Specs) LoadFile(path string, repoStyle bool, defaultPkg string) error {
 			if cur == nil {
 				return errf("callees outside func block")
 			}
-			m := regexp.MustCompile(`^callees(\[[^\]]*\])?\s+(.*)$`).FindStringSubmatch(t)
+			m := regexp.MustCompile(`^callees(\[[^\]]*\])?\s*(.*)$`).FindStringSubmatch(t)
 			if m == nil {
 				return errf("bad callees")
 			}
 			cur.HasCallees = true
 			cur.CalleeTags = parseTags(m[1])
 			for _, c := range splitTop(m[2]) {
-				if c = strings.TrimSpace(c); c != "" {
+				if c = strings.TrimSpace(c); c != "" && c != "none" {
 					cur.Callees = append(cur.Callees, c)
 				}
 			}
